@@ -3,6 +3,7 @@ import QuinnModel.Lemmas.Lifecycle
 import QuinnModel.Lemmas.Amplification
 import QuinnModel.Lemmas.StreamsProgress
 import QuinnModel.Lemmas.StreamsReadable
+import QuinnModel.Lemmas.StreamsAnnounce
 /-
 C02 — Connections make progress: no deadlock under fair loss.   (property theorems only; PARTIAL)
 Liveness under probabilistic fairness is not an inductive invariant.  Proved here: the deadlock-freedom facts
@@ -13,7 +14,9 @@ Stream layer (Lemmas/StreamsProgress.lean, for EVERY state of the `StreamsState`
 queued event reaches an application that polls until nothing is reported; MAX_STREAMS that makes room for a refused
 opener yields `Available`; MAX_STREAM_DATA / connection-level credit that makes room for a refused writer yields
 `Writable`; a STREAM frame / RESET_STREAM accepted on a half whose reader is waiting yields `Readable` (or `Opened` for a
-stream the application does not hold yet).
+stream the application does not hold yet); a slot that an application call gives back to the peer (`stop` on a stream
+whose final size is known, a read that reaches the end, `received_reset`) is queued for MAX_STREAMS by that very call
+(Lemmas/StreamsAnnounce.lean) — not at the end of the next incoming packet, which a peer parked on the limit never sends.
 Not proved: that the whole connection eventually completes — that is checked on real endpoints by the simulator
 (completion of event-driven workloads under every seeded fair-loss schedule, `unarmed-timer` oracle at every
 quiescent point, 0-RTT / Retry / key-update / migration schedules).
@@ -162,6 +165,40 @@ theorem readable_after_reset (s s' s1 : State) (id code fo fuel : Nat) (t : Bool
     rw [if_neg hh] at hn
     exact hn
 
+/-! ### stream layer: a slot given back by the application is announced by the same call -/
+open Streams in
+/-- no withheld stream-count update (`RecvStream::stop`, hence also a dropped `RecvStream` handle): in ANY state, a
+    `stop` that raises the peer's stream limit in direction `d` (`hfreed`: it freed a stream of the peer whose final
+    size was known — RESET_STREAM or FIN received, data unread) leaves MAX_STREAMS queued for `d` whenever the part of
+    the limit the peer has not been told about is one the endpoint announces at all (`Gen.maxStreamsSignificant`, the
+    threshold of `queue_max_stream_id` read from the source).  Before the repair the frame was queued only at the end
+    of the next incoming packet: a peer parked in `open_uni()` / `open_bi()` on the limit stayed parked
+    (finding `c18-stream-credit-announced-only-after-next-packet`). -/
+theorem stop_announces_freed_slot (s s' : State) (id code : Nat) (b : Bool) (d : Dir)
+    (h : s.stop id code = some (s', b)) (hfreed : s.maxRemote.get d < s'.maxRemote.get d)
+    (hsig : Gen.maxStreamsSignificant (s'.maxRemote.get d - s'.sentMaxRemote.get d)
+      (s'.maxConcurrentRemoteCount.get d) = true) :
+    s'.rtx.maxStreamId.get d = true :=
+  stop_announces d h hfreed hsig
+
+open Streams in
+/-- the same for a read that gives the slot back (it delivered the end of the stream or the reset) -/
+theorem read_announces_freed_slot (s s' : State) (id budget : Nat) (r : ReadRes) (d : Dir)
+    (h : s.read id budget = some (s', r)) (hfreed : s.maxRemote.get d < s'.maxRemote.get d)
+    (hsig : Gen.maxStreamsSignificant (s'.maxRemote.get d - s'.sentMaxRemote.get d)
+      (s'.maxConcurrentRemoteCount.get d) = true) :
+    s'.rtx.maxStreamId.get d = true :=
+  read_announces d h hfreed hsig
+
+open Streams in
+/-- the same for `RecvStream::received_reset` that reports the reset code and drops the stream -/
+theorem received_reset_announces_freed_slot (s s' : State) (id : Nat) (r : Option (Option Nat)) (d : Dir)
+    (h : s.recvReceivedReset id = some (s', r)) (hfreed : s.maxRemote.get d < s'.maxRemote.get d)
+    (hsig : Gen.maxStreamsSignificant (s'.maxRemote.get d - s'.sentMaxRemote.get d)
+      (s'.maxConcurrentRemoteCount.get d) = true) :
+    s'.rtx.maxStreamId.get d = true :=
+  recvReceivedReset_announces d h hfreed hsig
+
 -- non-vacuity
 example : LossTimer.covered ⟨false, false, false, 3, true, 0, 100, 25, false, ⟨false, none, none⟩, ⟨false, none, none⟩, ⟨true, some 7, none⟩⟩ := by
   simp [LossTimer.covered]
@@ -197,5 +234,28 @@ example : (blockedReader.bind fun s => (s.received 0 5 3 false).bind fun r => (d
 open Streams in
 example : (blockedReader.bind fun s => (s.receivedReset 0 7 5).bind fun r => (drain 3 r.1).map (·.1)) =
     some [Event.readable 0] := by decide
+
+/-- a server that permits the client 2 unidirectional streams; the client's stream 2 was reset (RESET_STREAM arrived,
+    nothing read) and its stream 6 carried 5 bytes and a FIN (unread) -/
+def knownFinal : Option Streams.State :=
+  Streams.runSteps Streams.State.initial [.new ⟨.server, 2, 1, 1000, 1000, 1000⟩, .params ⟨100, 100, 100, 2, 2, 1000⟩,
+    .rst 2 7 0, .stream 6 0 5 true]
+-- `stop` after the reset / after the FIN: the limit goes from 2 to 3, the raise is significant, MAX_STREAMS is queued
+open Streams in
+example : (knownFinal.bind fun s => (s.stop 2 7).map fun r =>
+    (s.maxRemote.get .uni, r.1.maxRemote.get .uni, r.1.sentMaxRemote.get .uni,
+      Gen.maxStreamsSignificant (r.1.maxRemote.get .uni - r.1.sentMaxRemote.get .uni) (r.1.maxConcurrentRemoteCount.get .uni),
+      r.1.rtx.maxStreamId.get .uni, s.rtx.maxStreamId.get .uni)) = some (2, 3, 2, true, true, false) := by decide
+open Streams in
+example : (knownFinal.bind fun s => (s.stop 6 9).map fun r =>
+    (s.maxRemote.get .uni, r.1.maxRemote.get .uni, r.1.rtx.maxStreamId.get .uni, r.1.rtx.stopSending)) =
+    some (2, 3, true, [(6, 9)]) := by decide
+-- a read to the end / received_reset on the same streams
+open Streams in
+example : (knownFinal.bind fun s => (s.read 6 100).map fun r => (r.1.maxRemote.get .uni, r.1.rtx.maxStreamId.get .uni)) =
+    some (3, true) := by decide
+open Streams in
+example : (knownFinal.bind fun s => (s.recvReceivedReset 2).map fun r => (r.1.maxRemote.get .uni, r.1.rtx.maxStreamId.get .uni)) =
+    some (3, true) := by decide
 
 end QM.Props.C02
